@@ -219,6 +219,20 @@ def generate(rng: Prng, tier: str) -> dict:
     hist = rng.stream("history")
     cfg = gen_int_config(w) if hist.chance(0.12) else gen_config(w)
     cfg["shared_order"] = hist.choice(["far_first", "near_first"])
+    rr = rng.stream("ratio")
+    if not cfg.get("ints") and rr.chance(0.07):
+        # two spheres whose radii differ by three to four orders of magnitude, partly overlapping
+        cfg["rb"] = cfg["r1"] * rr.choice([1e3, 3e3, 1e4, 1e3])
+        cfg["d"] = (cfg["rb"] - cfg["r1"]) + 2 * cfg["r1"] * rr.uniform(0.05, 0.95)
+        cfg["dk"] = "overlap_ratio"
+    if not cfg.get("ints") and rr.chance(0.25):
+        # a second far radius for the same pair of end points: ONE sphere object will meet both frusta
+        r1_, h_ = cfg["r1"], cfg["h"]
+        for f in (0.5, 0.9, 0.25, 0.7, 0.35):
+            r2b = r1_ * f
+            if abs(math.hypot(h_, r2b) - r1_) > 1e-3 * r1_ and abs(r2b - cfg["r2"]) > 1e-3 * r1_:
+                cfg["r2b"] = r2b
+                break
     eh = rng.stream("estimate")
     if eh.chance(0.2):
         cfg["estimate_first"] = eh.choice([50, 200, 1000])
@@ -269,6 +283,10 @@ def reference(cfg: dict) -> dict:
     }
     for i, f in enumerate(cfg["caps"]):
         ref[f"cap{i}"] = vm.cap_volume(r1, f * r1)
+    if cfg.get("r2b") is not None:
+        Fb = vm.frustum(0.0, r1, h, cfg["r2b"])
+        ref["sfb_near_intersect"] = vm.intersection_volume([S1, Fb])
+        ref["sfb_near_union"] = vm.union_volume([S1, Fb])
     return ref
 
 
@@ -356,6 +374,13 @@ def evaluate(cfg: dict) -> dict:
         sc, sr = (c1, r1) if end == "near" else (c2, r2)
         out[f"sf_{end}_intersect_shared"] = vol(S(sc, sr).intersect(fr2))
         out[f"sf_{end}_union_shared"] = vol(S(sc, sr).union(fr2))
+    if cfg.get("r2b") is not None:
+        # ONE sphere object met by two frusta that share both end points and differ only in the far radius: what the
+        # sphere overlaps is a fact about the pair, not something the sphere may remember by the far end's position
+        sph = S(c1, r1)
+        out["sf_near_intersect_shared2"] = vol(sph.intersect(F(c1, r1, c2, r2)))
+        out["sfb_near_intersect"] = vol(sph.intersect(F(c1, r1, c2, cfg["r2b"])))
+        out["sfb_near_union"] = vol(sph.union(F(c1, r1, c2, cfg["r2b"])))
     return {k: float(v) for k, v in out.items()}, axis
 
 
@@ -401,6 +426,8 @@ def tol_for(cfg: dict, key: str) -> float:
             loose = True
         if r2 < 1e-4 * r1 or h < 1e-2 * r1:
             loose = True
+    if key.startswith("sfb_"):
+        return 1e-4 if (h < 1e-2 * r1 or abs(h - r1) < 1e-5) else 1e-6
     return 1e-4 if loose else 1e-6
 
 
@@ -429,7 +456,7 @@ def far_slack(cfg: dict) -> float:
 def judge(cfg: dict, ref: dict, scale: float, got: dict, where: str):
     slack = far_slack(cfg)
     for key, val in sorted(got.items()):
-        rkey = key.replace("_rev", "").replace("_flip", "").replace("_reused", "").replace("_shared", "")
+        rkey = key.replace("_rev", "").replace("_flip", "").replace("_reused", "").replace("_shared2", "").replace("_shared", "")
         exp = ref[rkey]
         tol = tol_for(cfg, key) + slack
         if not (abs(val - exp) <= tol * max(abs(exp), 1e-6 * scale) + 1e-12):
@@ -476,7 +503,7 @@ def execute(program: dict) -> dict:
                     for key in first:
                         a, b = first[key], got[key]
                         if abs(a - b) > (1e-9 + far_slack(cfg)) * max(abs(a), abs(b), 1e-6 * scale):
-                            violation = {"tag": "schedule_dependence", "op": key.replace("_rev", "").replace("_flip", "").replace("_reused", "").replace("_shared", ""),
+                            violation = {"tag": "schedule_dependence", "op": key.replace("_rev", "").replace("_flip", "").replace("_reused", "").replace("_shared2", "").replace("_shared", ""),
                                          "detail": f"{key}: {a!r} under `seed` but {b!r} under `{kind}`"}
                             break
                     if violation:
